@@ -67,7 +67,11 @@ func genLpm(cfg Config, emit func(string, bool, []string)) {
 			if r.IntN(4) == 0 {
 				base = r.IntN(nv)
 			}
-			add("txn %d", base)
+			if t > 0 && r.IntN(3) == 0 {
+				add("reuse %d", base)
+			} else {
+				add("txn %d", base)
+			}
 			for i := r.IntN(maxOps + 1); i > 0; i-- {
 				d, l := key()
 				switch x := r.IntN(100); {
@@ -153,6 +157,7 @@ type lpmExec struct {
 	versions []lpm.Trie[int]
 	refs     []map[string]lpmEnt
 	txn      *lpm.Txn[int]
+	lastTxn  *lpm.Txn[int] // the most recent transaction object, kept after Commit / abandon for Reuse
 	tref     map[string]lpmEnt
 	iters    []*lpmIt
 }
@@ -292,9 +297,18 @@ func (e *lpmExec) Do(o *Out, f []string) string {
 		}
 	}
 	switch f[0] {
-	case "txn":
+	case "txn", "reuse":
 		v := atoi(f[1])
-		e.txn = e.versions[v].Txn()
+		if v >= len(e.versions) {
+			return "bad-op"
+		}
+		if f[0] == "reuse" && e.lastTxn != nil {
+			// Txn.Reuse: an earlier transaction object (committed or abandoned, not cleared) re-targeted at a trie
+			e.txn = e.lastTxn.Reuse(e.versions[v])
+		} else {
+			e.txn = e.versions[v].Txn()
+		}
+		e.lastTxn = e.txn
 		e.tref = map[string]lpmEnt{}
 		for k, x := range e.refs[v] {
 			e.tref[k] = x
